@@ -80,6 +80,9 @@ def matrix_correspondence(c):
 
 
 def run(c):
+    import gen_params as gp_mod
+    for pbm in gp_mod.generate(c.snap)["problems"]:      # limit tests of of_2d_parity_set_fec_parameters, regenerated
+        c.proof_failed.append({"translator": pbm})
     c.prove(["Properties_C16.v"])
     qk = c.tier == "quick"
     reqs, ans = session_check.run_sessions(c, (sessions.P2D,), {"C16", "C10", "C11", "C07", "C08", "C06"}, 400 if qk else 5000, 1500 if qk else 30000)
